@@ -12,7 +12,7 @@ SCOPE = {"solve", "named", "presets"}
 CORR_IS_VIOLATION = True
 REL = 1e-8
 N_QUICK = 120
-N_THOROUGH = 3000
+N_THOROUGH = 2000
 RULE = ("random perfect-recall trees x {Full, Sampled, External} x {five presets, None, accepted tuples over "
         "{-inf,-1,0,.5,1,1.5,2,3,+inf} and, for 40% of them, also large / odd finite exponents {-1000,-12.25,37.5,1000} and weights}} x a ladder of budgets (quick: 0..5,7,10,15,25,50; thorough: every T in 0..50) under "
         "pinned draws (table indexed by infoset cell and pass, weights ignored so that every sequence of sampling decisions is "
